@@ -58,6 +58,8 @@ type mergeObs struct {
 	hintPathSet bool
 	beforeModel map[string][]byte
 	preFiles    []uint32
+	preHashes   map[string]uint64 // rotated data files before a Merge call that then failed
+	failedMerge bool
 }
 
 func dataIDs(dir string) []uint32 {
@@ -87,6 +89,17 @@ func mergeSetup(prop string) func(r *kvh.Runner) {
 			}
 			o.preFiles = dataIDs(r.Dir)
 			o.deadBefore = r.F.Rewrites > 0
+			o.failedMerge = false
+			o.preHashes = map[string]uint64{}
+			for i, id := range o.preFiles {
+				if i == len(o.preFiles)-1 {
+					break // the active file keeps growing
+				}
+				name := fmt.Sprintf("%09d%s", id, datafile.DataFileSuffix)
+				if b, err := kvh.ReadLogical(gIO, filepath.Join(r.Dir, name)); err == nil {
+					o.preHashes[name] = kvh.Hash64(b)
+				}
+			}
 			// a new Merge call first removes whatever an earlier, not yet adopted merge left behind
 			o.pending = false
 		})
@@ -96,6 +109,7 @@ func mergeSetup(prop string) func(r *kvh.Runner) {
 				// a merge that gets adopted replaces the files: the two Opens no longer see the same files
 				o.hintPathSet = false
 				if r.LastMergeErr != nil {
+					o.failedMerge = true
 					// an abandoned merge must leave nothing that a later Open could adopt
 					if fi, err := os.Stat(filepath.Join(r.Dir+"-merge", fmt.Sprintf("%09d%s", 0, datafile.MergeFinishedFileSuffix))); err == nil && fi.Size() > 0 && o.pending == false {
 						return &kvh.Fail{Sig: "failed-merge-leaves-marker", Msg: fmt.Sprintf("Merge returned %v but left a merge-finished marker behind", r.LastMergeErr)}
@@ -129,6 +143,20 @@ func mergeSetup(prop string) func(r *kvh.Runner) {
 						return &kvh.Fail{Sig: "hint-path-and-scan-path-disagree", Msg: fmt.Sprintf("DiskSize-ReclaimableSize was %d after the hint-path Open and is %d after the scan-path Open of the same files", o.hintPathGap, gap)}
 					}
 					r.Stats.Label("scan-path-open-after-hint-path-open")
+				}
+				if o.failedMerge {
+					// (iii) the restart after a failed Merge behaves as if no merge had run: the rotated files are untouched
+					o.failedMerge = false
+					for name, want := range o.preHashes {
+						b, err := kvh.ReadLogical(gIO, filepath.Join(r.Dir, name))
+						if err != nil {
+							return &kvh.Fail{Sig: "failed-merge-changed-data-files", Msg: fmt.Sprintf("Merge had returned an error, yet after the next restart %s is gone: %v", name, err)}
+						}
+						if kvh.Hash64(b) != want {
+							return &kvh.Fail{Sig: "failed-merge-changed-data-files", Msg: fmt.Sprintf("Merge had returned an error, yet after the next restart %s has different content", name)}
+						}
+					}
+					r.Stats.Label("restart-after-failed-merge-leaves-files-untouched")
 				}
 				if !o.pending {
 					return nil
